@@ -88,31 +88,7 @@ type runOpts struct {
 // runDialogue executes the scenario once, with the given deviations.
 func runDialogue(scr *core.Scratch, sc *dscenario, o runOpts) *drun {
 	work := filepath.Join(scr.Dir, "dlg")
-	os.RemoveAll(work)
-	code := filepath.Join(work, "policies", "p1", "code")
-	os.MkdirAll(filepath.Join(code, "ipv6"), 0755)
-	for _, d := range []string{"lock", "status", "history"} {
-		os.MkdirAll(filepath.Join(work, d), 0755)
-	}
-	os.Symlink("p1", filepath.Join(work, "policies", "current"))
-	os.WriteFile(filepath.Join(code, "router"), []byte(sc.target.Main), 0644)
-	if sc.target.V6 != "" {
-		os.WriteFile(filepath.Join(code, "ipv6", "router"), []byte(sc.target.V6), 0644)
-	}
-	if sc.target.Raw != "" {
-		os.WriteFile(filepath.Join(code, "router.raw"), []byte(sc.target.Raw), 0644)
-	}
-	info := sc.target.Info
-	if info == "" {
-		info = fmt.Sprintf(`{"model":"%s","name_list":["router"],"ip_list":["10.1.13.33"]}`, sc.devType)
-	}
-	os.WriteFile(filepath.Join(code, "router.info"), []byte(info), 0644)
-	os.WriteFile(filepath.Join(work, "credentials"), []byte("* admin "+sc.secretPass()+"\n"), 0600)
-	cfg := "basedir = " + work + "\nsystemuser = admin\ntimeout = 1\nlogin_timeout = 1\n"
-	if sc.checkbanner != "" {
-		cfg += "checkbanner = " + sc.checkbanner + "\n"
-	}
-	os.WriteFile(filepath.Join(work, ".netspoc-approve"), []byte(cfg), 0644)
+	code := prepareWork(work, sc, 1)
 	os.Setenv("HOME", work)
 	os.Setenv("TEST_TIME", "2024-Sep-29 16:19:50")
 	os.Unsetenv("LANG")
@@ -303,4 +279,36 @@ func closeInnerScratches() {
 		s.Close()
 		delete(innerScratches, k)
 	}
+}
+
+
+// prepareWork creates the base directory of a run and returns the code
+// directory.
+func prepareWork(work string, sc *dscenario, timeout int) string {
+	os.RemoveAll(work)
+	code := filepath.Join(work, "policies", "p1", "code")
+	os.MkdirAll(filepath.Join(code, "ipv6"), 0755)
+	for _, d := range []string{"lock", "status", "history"} {
+		os.MkdirAll(filepath.Join(work, d), 0755)
+	}
+	os.Symlink("p1", filepath.Join(work, "policies", "current"))
+	os.WriteFile(filepath.Join(code, "router"), []byte(sc.target.Main), 0644)
+	if sc.target.V6 != "" {
+		os.WriteFile(filepath.Join(code, "ipv6", "router"), []byte(sc.target.V6), 0644)
+	}
+	if sc.target.Raw != "" {
+		os.WriteFile(filepath.Join(code, "router.raw"), []byte(sc.target.Raw), 0644)
+	}
+	info := sc.target.Info
+	if info == "" {
+		info = fmt.Sprintf(`{"model":"%s","name_list":["router"],"ip_list":["10.1.13.33"]}`, sc.devType)
+	}
+	os.WriteFile(filepath.Join(code, "router.info"), []byte(info), 0644)
+	os.WriteFile(filepath.Join(work, "credentials"), []byte("* admin "+sc.secretPass()+"\n"), 0600)
+	cfg := "basedir = " + work + "\nsystemuser = admin\ntimeout = " + fmt.Sprint(timeout) + "\nlogin_timeout = " + fmt.Sprint(timeout) + "\n"
+	if sc.checkbanner != "" {
+		cfg += "checkbanner = " + sc.checkbanner + "\n"
+	}
+	os.WriteFile(filepath.Join(work, ".netspoc-approve"), []byte(cfg), 0644)
+	return code
 }
